@@ -645,12 +645,27 @@ func noCode(h common.Hash) bool { return h == (common.Hash{}) || h == crypto256(
 var _ = state.New
 var _ = sort.Strings
 
+// driver cases are numbered from 1000000 in the sidecar's case index; the plain numbers are the indices of the Coq
+// terms (what ./check reports for a model mismatch), each pointing to the driver case it belongs to
+func caseKey(i int) int { return 1000000 + i }
+
+func addTerms(cases *CasesFile, side *Sidecar, i int, terms []string) {
+	for _, c := range terms {
+		kind := c
+		if j := strings.IndexAny(c, " \n"); j > 0 {
+			kind = c[:j]
+		}
+		side.CaseIndex[fmt.Sprint(cases.Len())] = map[string]interface{}{"see_case": fmt.Sprint(caseKey(i)), "term": kind}
+		cases.Add(c)
+	}
+}
+
 func TestDriverGethdiff(t *testing.T) {
 	out := OutDir(t)
 	seed := EnvSeed()
 	n := EnvInt("VERIF_N", 300)
 	rng := NewRng(seed)
-	side := NewSidecar("gethdiff", seed, "a case counts as non-trivial when the interpreter executed code (top-level frame used gas > 0); distinct by transactions + outcomes")
+	side := NewSidecar("gethdiff", seed, "program cases (generated pre-state + 1..3 transactions, evermint vs go-ethereum) count as non-trivial when the interpreter executed code (top-level frame used gas > 0), distinct by transactions + outcomes; random interface-operation sequences always count, distinct by operations + observations; end-to-end cases (real blocks) like program cases")
 	worlds := []*world{newWorld(t, true), newWorld(t, false)}
 	names := []string{"custom-precompiles-registered", "no-custom-precompile"}
 	cases := NewCases(out, "From Evm Require Import EvmAbs GethStateDB EvmStateDB Transition CorrBase CorrGethDiff.", "gd_mismatches")
@@ -673,20 +688,16 @@ func TestDriverGethdiff(t *testing.T) {
 		}
 		pc := &progCase{idx: i, w: worlds[wi], wname: names[wi], side: side, codes: newCodeTable(), rep: caseReport{Case: i, Seed: seed, World: names[wi]}}
 		canon, nt := pc.run(t, rng.Fork(uint64(i)), sc)
-		side.Case(i, canon, nt, pc.rep)
+		side.Case(caseKey(i), canon, nt, pc.rep)
 		side.Count("world:" + names[wi])
-		for _, c := range pc.tcases {
-			cases.Add(c)
-		}
+		addTerms(cases, side, i, pc.tcases)
 	}
 	// part (a): random interface-operation sequences
 	nRand := n / 2
 	for j := 0; j < nRand; j++ {
 		i := n + len(directed) + j
 		terms, _ := runRandCase(worlds[j%2], rng.Fork(uint64(i)), i, seed, side)
-		for _, c := range terms {
-			cases.Add(c)
-		}
+		addTerms(cases, side, i, terms)
 	}
 	// end-to-end leg: transactions delivered in real blocks
 	runE2ECases(t, newWorld(t, true), rng, 12+n/12, side, n+len(directed)+nRand)
